@@ -1,11 +1,15 @@
 package main
 
 import (
+	"context"
 	"encoding/hex"
 	"fmt"
 	"math"
+	"os"
+	"os/exec"
 	"strconv"
 	"strings"
+	"time"
 
 	lua "github.com/yuin/gopher-lua"
 	"github.com/yuin/gopher-lua/parse"
@@ -23,6 +27,7 @@ type item struct {
 // tfield is one entry of a date table: number or string (hex) or bool
 type tfield struct {
 	Name string `json:"name"`
+	Inh  bool   `json:"inherited,omitempty"` // the field lives in the metatable's __index table
 	Num  *int64 `json:"num,omitempty"`
 	Str  string `json:"str_hex,omitempty"`
 	IsS  bool   `json:"is_str,omitempty"`
@@ -408,19 +413,39 @@ func runCase(w *lib.Writer, c in, kf ...string) {
 	case "time":
 		L := state()
 		tb := L.NewTable()
-		var terms []string
+		inh := L.NewTable()
+		hasInh := false
+		var terms, inhTerms []string
 		for _, f := range c.Tbl {
+			dst := tb
+			if f.Inh {
+				dst, hasInh = inh, true
+			}
+			var term string
 			switch {
 			case f.IsS:
-				tb.RawSetString(f.Name, lua.LString(string(unhex(f.Str))))
-				terms = append(terms, fmt.Sprintf("(%s, DStr %s)", fnames[f.Name], lib.CoqBytes(unhex(f.Str))))
+				dst.RawSetString(f.Name, lua.LString(string(unhex(f.Str))))
+				term = fmt.Sprintf("(%s, DStr %s)", fnames[f.Name], lib.CoqBytes(unhex(f.Str)))
 			case f.IsB:
-				tb.RawSetString(f.Name, lua.LTrue)
-				terms = append(terms, fmt.Sprintf("(%s, DBool true)", fnames[f.Name]))
+				dst.RawSetString(f.Name, lua.LTrue)
+				term = fmt.Sprintf("(%s, DBool true)", fnames[f.Name])
 			case f.Num != nil:
-				tb.RawSetString(f.Name, lua.LNumber(*f.Num))
-				terms = append(terms, fmt.Sprintf("(%s, DNum %s)", fnames[f.Name], lib.CoqZ(*f.Num)))
+				dst.RawSetString(f.Name, lua.LNumber(*f.Num))
+				term = fmt.Sprintf("(%s, DNum %s)", fnames[f.Name], lib.CoqZ(*f.Num))
+			default:
+				continue
 			}
+			if f.Inh {
+				inhTerms = append(inhTerms, term)
+			} else {
+				terms = append(terms, term)
+			}
+		}
+		if hasInh { // t[key] finds an own field first, then the __index table's
+			mt := L.NewTable()
+			mt.RawSetString("__index", inh)
+			L.SetMetatable(tb, mt)
+			terms = append(terms, inhTerms...)
 		}
 		res, errs, pan := callFn(field("os", "time"), tb)
 		v, ok := oneNumber(res)
@@ -574,3 +599,37 @@ func readNumber(w *lib.Writer, id int, rd int, s []byte) (float64, bool) {
 
 func lluaStr(s string) lua.LValue { return lua.LString(s) }
 func lluaNum(n int64) lua.LValue  { return lua.LNumber(n) }
+
+// child runs one input that may kill the process; exit status 0 = the property held.
+func child(args []string) int {
+	time.Local = time.UTC
+	switch args[0] {
+	case "pctpct": // os.date of n pairs "%%" must be n percent signs
+		n, _ := strconv.Atoi(args[1])
+		res, errs, pan := callFn(field("os", "date"), lua.LString(strings.Repeat("%%", n)), lua.LNumber(0))
+		o, ok := oneString(res)
+		if pan != "" || errs != "" || !ok || len(o) != n || strings.Trim(string(o), "%") != "" {
+			fmt.Println("wrong result", errs, pan, len(o))
+			return 1
+		}
+		return 0
+	}
+	return 2
+}
+
+// runChild re-executes the harness for an input that can crash it; returns "" when the child
+// reported success, otherwise what happened (truncated).
+func runChild(timeout time.Duration, args ...string) string {
+	ctx, cancel := context.WithTimeout(context.Background(), timeout)
+	defer cancel()
+	cmd := exec.CommandContext(ctx, os.Args[0], append([]string{"child"}, args...)...)
+	out, err := cmd.CombinedOutput()
+	if err == nil {
+		return ""
+	}
+	msg := err.Error() + ": " + string(out)
+	if len(msg) > 300 {
+		msg = msg[:300]
+	}
+	return msg
+}
